@@ -1225,8 +1225,9 @@ def gen_c12(repo):
 class TrF:
     """functional expressions: lambdas, functools.reduce, sums, comprehensions over partitions, method chains on `self`"""
 
-    def __init__(self, module_funcs):
+    def __init__(self, module_funcs, head_helpers=()):
         self.module_funcs = module_funcs      # name -> lean term for module-level helpers (unit_map, unit_collect)
+        self.head_helpers = set(head_helpers)  # module-level helpers that return the first element of an iterable or raise
         self.cnt = 0
 
     def lam(self, e, env, drop_first=True):
@@ -1270,8 +1271,8 @@ class TrF:
                 return self.expr(e.args[0], env)
             if f == 'dict' and len(e.args) == 1:
                 return '(Rdd.pyDict %s)' % self.expr(e.args[0], env)
-            if f == 'next' and len(e.args) == 1:
-                return '(List.head? %s)' % self.expr(e.args[0], env)
+            if (f == 'next' or f in self.head_helpers) and len(e.args) == 1:
+                return '(List.head? %s)' % self.expr(e.args[0], env)      # `none` = it raises (StopIteration / the helper's ValueError)
             if f == 'itertools.chain.from_iterable' and len(e.args) == 1:
                 return '(List.flatten %s)' % self.expr(e.args[0], env)
             if f == 'itertools.islice' and len(e.args) == 2:
@@ -1323,7 +1324,15 @@ def gen_c01(repo):
     um, uc = find_def(tree, 'unit_map'), find_def(tree, 'unit_collect')
     if [ast.unparse(x) for x in body_of(um)] != ['return list(elements)'] or [ast.unparse(x) for x in body_of(uc)] != ['return [x for p in l for x in p]']:
         raise NotTranslatable('unit_map / unit_collect')
-    t = TrF({'unit_map': '(fun elements => elements)', 'unit_collect': '(fun l => List.flatten l)'})
+    # `first_of(iterable)`: the first element, or ValueError (the repaired spelling of `next(...)` in `first`), by its exact shape
+    heads = []
+    fo = [n for n in tree.body if isinstance(n, ast.FunctionDef) and n.name == 'first_of']
+    if fo:
+        if [a.arg for a in fo[0].args.args] != ['iterable'] or [ast.unparse(x) for x in body_of(fo[0])] != \
+                ['for element in iterable:\n    return element', "raise ValueError('RDD is empty')"]:
+            raise NotTranslatable('first_of')
+        heads = ['first_of']
+    t = TrF({'unit_map': '(fun elements => elements)', 'unit_collect': '(fun l => List.flatten l)'}, head_helpers=heads)
     out = ('open PysparklingVerif\n\n/-- `copy.deepcopy`: the same VALUE (that the copy shares nothing with the original is the subject of the heap model, '
            'Model/ZeroCopy.lean) -/\ndef deepcopy {α : Type} (x : α) : α := x\n\n'
            '/-- `functools.reduce(f, xs)` without an initial value (`none` = TypeError on an empty sequence) -/\n'
